@@ -1024,11 +1024,21 @@ fn _update_tx_pool_for_reorg(
         let mut proposals = Vec::new();
         let mut gaps = Vec::new();
 
+        // gap entries whose proposal is no longer on the chain (detached by a reorg) go back to pending
+        let mut pendings = Vec::new();
+
         for entry in tx_pool.pool_map.entries.get_by_status(&Status::Gap) {
             let short_id = entry.inner.proposal_short_id();
             if snapshot.proposals().contains_proposed(&short_id) {
                 proposals.push((short_id, entry.inner.clone()));
+            } else if !snapshot.proposals().contains_gap(&short_id) {
+                pendings.push(short_id);
             }
+        }
+
+        for id in pendings {
+            debug!("begin to pending: {:x}", id);
+            tx_pool.pool_map.set_entry(&id, Status::Pending);
         }
 
         for entry in tx_pool.pool_map.entries.get_by_status(&Status::Pending) {
